@@ -95,6 +95,17 @@ func runC11(c *bx.Ctx) {
 			cat = append(cat, wire[k]...)
 			sum += size[k]
 		}
+		// totality of the accessors on every sequence, valid or not
+		if msg, pan := bx.Guard(func() {
+			_, _ = seq.CNAME()
+			_ = seq.DestinationSSRC()
+			_ = seq.MarshalSize()
+			_ = seq.String()
+		}); pan {
+			c.Report("C11/accessor-panics", "CNAME / DestinationSSRC / MarshalSize / String panics on a compound: "+msg, bx.Replay{Entry: "accessors", Ops: names, Expected: "results", Observed: "panic: " + msg})
+			return
+		}
+		c.T(4)
 		// reference automaton
 		valid, cname := false, ""
 		if len(idx) > 0 && (kinds[idx[0]].isSR || kinds[idx[0]].isRR) {
